@@ -131,8 +131,8 @@ PROTOCOLS["SignalSetter"] = SignalSetterProtocol()
 PROTOCOLS["SigHandler"] = SigHandlerProtocol()
 
 
-class ResizePipeProtocol(Protocol):
-    kind = "ResizePipe"
+class ResizePipeWrProtocol(Protocol):
+    kind = "ResizePipeWr"
     methods = {}
 
     def getattr(self, ip, st, obj, name):
@@ -147,7 +147,7 @@ class ResizePipeProtocol(Protocol):
         return 1
 
 
-PROTOCOLS["ResizePipe"] = ResizePipeProtocol()
+PROTOCOLS["ResizePipeWr"] = ResizePipeWrProtocol()
 
 
 def _fresh_screen(st, hint):
@@ -155,7 +155,7 @@ def _fresh_screen(st, hint):
     o.fields.update(
         signal_handler_setter=V.SOpaque("SignalSetter", z3.Const("signal.signal", S.opaque_sort("SignalSetter"))),
         _prev_sigwinch_handler=None, _prev_sigtstp_handler=None, _prev_sigcont_handler=None, _sigcont_hooked=False,
-        _resized=st.fresh_bool("resized"), _resize_pipe_wr=V.SOpaque("ResizePipe", z3.Const("resize_pipe_wr", S.opaque_sort("ResizePipe"))))
+        _resized=st.fresh_bool("resized"), _resize_pipe_wr=V.SOpaque("ResizePipeWr", z3.Const("resize_pipe_wr", S.opaque_sort("ResizePipeWr"))))
     st.ghost["screen_obj"] = o
     return o
 
